@@ -69,6 +69,16 @@ impl Mode {
                 // `[bx + si]` in 32-bit mode): the address is computed from their
                 // zero-extended values and truncated to the address size.
                 let mut address_bits = self.bits();
+                // the instruction's address size also decides for an operand
+                // without address registers (`[disp16]` in 32-bit mode)
+                if let Some(detail) = instruction.detail.as_ref() {
+                    if let capstone::DetailsArch::X86(x86_detail) = detail.arch {
+                        let size = x86_detail.addr_size as usize * 8;
+                        if size != 0 && size < address_bits {
+                            address_bits = size;
+                        }
+                    }
+                }
                 let mut widen = |expr: Expression| -> Result<Expression, Error> {
                     if expr.bits() < self.bits() {
                         address_bits = expr.bits();
